@@ -1,0 +1,587 @@
+//go:build verif
+
+package kv
+
+// C12 differential driver for the sharded store: every operation of a generated history goes through
+// kv.Store over 1..4 miniredis shards (with weights) and through raw go-redis on ONE twin server;
+// replies and the union of the shards' keyspaces vs the single keyspace are reported.  No oracle here.
+
+import (
+	"context"
+	"encoding/json"
+	"testing"
+	"time"
+
+	"github.com/alicebob/miniredis/v2"
+	red "github.com/go-redis/redis/v8"
+	"github.com/gotid/god/internal/verifdrv"
+	"github.com/gotid/god/lib/logx"
+	"github.com/gotid/god/lib/store/cache"
+	"github.com/gotid/god/lib/store/redis"
+)
+
+type verifOp struct {
+	M    string           `json:"m"`
+	Form string           `json:"form"` // ctx | plain | canceled
+	A    verifdrv.C12Args `json:"a"`
+}
+
+type verifCase struct {
+	Kind    string    `json:"kind"`
+	Seed    int       `json:"seed"`
+	Weights []int     `json:"weights"`
+	Ops     []verifOp `json:"ops"`
+}
+
+func verifPairs(a verifdrv.C12Args, i int) []redis.Pair {
+	var out []redis.Pair
+	for _, p := range a.Scored(i) {
+		out = append(out, redis.Pair{Member: p.M, Score: int64(p.S)})
+	}
+	return out
+}
+
+// verifWrap calls Store method m (named by its context form) in the requested form.
+func verifWrap(s Store, ctx context.Context, plain bool, m string, a verifdrv.C12Args) (val any, err error, ok bool) {
+	ok = true
+	zero := verifdrv.C12Zero{}
+	switch m {
+	case "DecrCtx":
+		if plain {
+			val, err = s.Decr(a.S(0))
+		} else {
+			val, err = s.DecrCtx(ctx, a.S(0))
+		}
+	case "DecrByCtx":
+		if plain {
+			val, err = s.DecrBy(a.S(0), a.I(1))
+		} else {
+			val, err = s.DecrByCtx(ctx, a.S(0), a.I(1))
+		}
+	case "DelCtx":
+		if plain {
+			val, err = s.Del(a.SS(0)...)
+		} else {
+			val, err = s.DelCtx(ctx, a.SS(0)...)
+		}
+	case "EvalCtx":
+		if plain {
+			val, err = s.Eval(verifdrv.C12Lua[a.N(0)], a.S(1), a.Anys(2)...)
+		} else {
+			val, err = s.EvalCtx(ctx, verifdrv.C12Lua[a.N(0)], a.S(1), a.Anys(2)...)
+		}
+	case "ExistsCtx":
+		if plain {
+			val, err = s.Exists(a.S(0))
+		} else {
+			val, err = s.ExistsCtx(ctx, a.S(0))
+		}
+	case "ExpireCtx":
+		val = zero
+		if plain {
+			err = s.Expire(a.S(0), a.N(1))
+		} else {
+			err = s.ExpireCtx(ctx, a.S(0), a.N(1))
+		}
+	case "ExpireAtCtx":
+		val = zero
+		if plain {
+			err = s.ExpireAt(a.S(0), a.I(1))
+		} else {
+			err = s.ExpireAtCtx(ctx, a.S(0), a.I(1))
+		}
+	case "GetCtx":
+		if plain {
+			val, err = s.Get(a.S(0))
+		} else {
+			val, err = s.GetCtx(ctx, a.S(0))
+		}
+	case "GetSetCtx":
+		if plain {
+			val, err = s.GetSet(a.S(0), a.S(1))
+		} else {
+			val, err = s.GetSetCtx(ctx, a.S(0), a.S(1))
+		}
+	case "GetBitCtx":
+		if plain {
+			val, err = s.GetBit(a.S(0), a.I(1))
+		} else {
+			val, err = s.GetBitCtx(ctx, a.S(0), a.I(1))
+		}
+	case "HDelCtx":
+		if plain {
+			val, err = s.HDel(a.S(0), a.S(1))
+		} else {
+			val, err = s.HDelCtx(ctx, a.S(0), a.S(1))
+		}
+	case "HExistsCtx":
+		if plain {
+			val, err = s.HExists(a.S(0), a.S(1))
+		} else {
+			val, err = s.HExistsCtx(ctx, a.S(0), a.S(1))
+		}
+	case "HGetCtx":
+		if plain {
+			val, err = s.HGet(a.S(0), a.S(1))
+		} else {
+			val, err = s.HGetCtx(ctx, a.S(0), a.S(1))
+		}
+	case "HGetAllCtx":
+		if plain {
+			val, err = s.HGetAll(a.S(0))
+		} else {
+			val, err = s.HGetAllCtx(ctx, a.S(0))
+		}
+	case "HIncrByCtx":
+		if plain {
+			val, err = s.HIncrBy(a.S(0), a.S(1), a.N(2))
+		} else {
+			val, err = s.HIncrByCtx(ctx, a.S(0), a.S(1), a.N(2))
+		}
+	case "HKeysCtx":
+		if plain {
+			val, err = s.HKeys(a.S(0))
+		} else {
+			val, err = s.HKeysCtx(ctx, a.S(0))
+		}
+	case "HLenCtx":
+		if plain {
+			val, err = s.HLen(a.S(0))
+		} else {
+			val, err = s.HLenCtx(ctx, a.S(0))
+		}
+	case "HMGetCtx":
+		if plain {
+			val, err = s.HMGet(a.S(0), a.SS(1)...)
+		} else {
+			val, err = s.HMGetCtx(ctx, a.S(0), a.SS(1)...)
+		}
+	case "HSetCtx":
+		val = zero
+		if plain {
+			err = s.HSet(a.S(0), a.S(1), a.S(2))
+		} else {
+			err = s.HSetCtx(ctx, a.S(0), a.S(1), a.S(2))
+		}
+	case "HSetNxCtx":
+		if plain {
+			val, err = s.HSetNx(a.S(0), a.S(1), a.S(2))
+		} else {
+			val, err = s.HSetNxCtx(ctx, a.S(0), a.S(1), a.S(2))
+		}
+	case "HMSetCtx":
+		val = zero
+		if plain {
+			err = s.HMSet(a.S(0), a.Map(1))
+		} else {
+			err = s.HMSetCtx(ctx, a.S(0), a.Map(1))
+		}
+	case "HValsCtx":
+		if plain {
+			val, err = s.HVals(a.S(0))
+		} else {
+			val, err = s.HValsCtx(ctx, a.S(0))
+		}
+	case "IncrCtx":
+		if plain {
+			val, err = s.Incr(a.S(0))
+		} else {
+			val, err = s.IncrCtx(ctx, a.S(0))
+		}
+	case "IncrByCtx":
+		if plain {
+			val, err = s.IncrBy(a.S(0), a.I(1))
+		} else {
+			val, err = s.IncrByCtx(ctx, a.S(0), a.I(1))
+		}
+	case "LLenCtx":
+		if plain {
+			val, err = s.LLen(a.S(0))
+		} else {
+			val, err = s.LLenCtx(ctx, a.S(0))
+		}
+	case "LIndexCtx":
+		if plain {
+			val, err = s.LIndex(a.S(0), a.I(1))
+		} else {
+			val, err = s.LIndexCtx(ctx, a.S(0), a.I(1))
+		}
+	case "LPopCtx":
+		if plain {
+			val, err = s.LPop(a.S(0))
+		} else {
+			val, err = s.LPopCtx(ctx, a.S(0))
+		}
+	case "LPushCtx":
+		if plain {
+			val, err = s.LPush(a.S(0), a.Anys(1)...)
+		} else {
+			val, err = s.LPushCtx(ctx, a.S(0), a.Anys(1)...)
+		}
+	case "LRangeCtx":
+		if plain {
+			val, err = s.LRange(a.S(0), a.N(1), a.N(2))
+		} else {
+			val, err = s.LRangeCtx(ctx, a.S(0), a.N(1), a.N(2))
+		}
+	case "LRemCtx":
+		if plain {
+			val, err = s.LRem(a.S(0), a.N(1), a.S(2))
+		} else {
+			val, err = s.LRemCtx(ctx, a.S(0), a.N(1), a.S(2))
+		}
+	case "LTrimCtx":
+		val = zero
+		if plain {
+			err = s.LTrim(a.S(0), a.I(1), a.I(2))
+		} else {
+			err = s.LTrimCtx(ctx, a.S(0), a.I(1), a.I(2))
+		}
+	case "PersistCtx":
+		if plain {
+			val, err = s.Persist(a.S(0))
+		} else {
+			val, err = s.PersistCtx(ctx, a.S(0))
+		}
+	case "PFAddCtx":
+		if plain {
+			val, err = s.PFAdd(a.S(0), a.Anys(1)...)
+		} else {
+			val, err = s.PFAddCtx(ctx, a.S(0), a.Anys(1)...)
+		}
+	case "PFCountCtx":
+		if plain {
+			val, err = s.PFCount(a.S(0))
+		} else {
+			val, err = s.PFCountCtx(ctx, a.S(0))
+		}
+	case "RPopCtx":
+		if plain {
+			val, err = s.RPop(a.S(0))
+		} else {
+			val, err = s.RPopCtx(ctx, a.S(0))
+		}
+	case "RPushCtx":
+		if plain {
+			val, err = s.RPush(a.S(0), a.Anys(1)...)
+		} else {
+			val, err = s.RPushCtx(ctx, a.S(0), a.Anys(1)...)
+		}
+	case "SAddCtx":
+		if plain {
+			val, err = s.SAdd(a.S(0), a.Anys(1)...)
+		} else {
+			val, err = s.SAddCtx(ctx, a.S(0), a.Anys(1)...)
+		}
+	case "SScanCtx":
+		var ks []string
+		var cur uint64
+		if plain {
+			ks, cur, err = s.SScan(a.S(0), a.U(1), a.S(2), a.I(3))
+		} else {
+			ks, cur, err = s.SScanCtx(ctx, a.S(0), a.U(1), a.S(2), a.I(3))
+		}
+		val = []any{ks, cur}
+	case "SCardCtx":
+		if plain {
+			val, err = s.SCard(a.S(0))
+		} else {
+			val, err = s.SCardCtx(ctx, a.S(0))
+		}
+	case "SetCtx":
+		val = zero
+		if plain {
+			err = s.Set(a.S(0), a.S(1))
+		} else {
+			err = s.SetCtx(ctx, a.S(0), a.S(1))
+		}
+	case "SetBitCtx":
+		if plain {
+			val, err = s.SetBit(a.S(0), a.I(1), a.N(2))
+		} else {
+			val, err = s.SetBitCtx(ctx, a.S(0), a.I(1), a.N(2))
+		}
+	case "SetExCtx":
+		val = zero
+		if plain {
+			err = s.SetEx(a.S(0), a.S(1), a.N(2))
+		} else {
+			err = s.SetExCtx(ctx, a.S(0), a.S(1), a.N(2))
+		}
+	case "SetNXCtx":
+		if plain {
+			val, err = s.SetNX(a.S(0), a.S(1))
+		} else {
+			val, err = s.SetNXCtx(ctx, a.S(0), a.S(1))
+		}
+	case "SetNXExCtx":
+		if plain {
+			val, err = s.SetNXEx(a.S(0), a.S(1), a.N(2))
+		} else {
+			val, err = s.SetNXExCtx(ctx, a.S(0), a.S(1), a.N(2))
+		}
+	case "SIsMemberCtx":
+		if plain {
+			val, err = s.SIsMember(a.S(0), a.S(1))
+		} else {
+			val, err = s.SIsMemberCtx(ctx, a.S(0), a.S(1))
+		}
+	case "SMembersCtx":
+		if plain {
+			val, err = s.SMembers(a.S(0))
+		} else {
+			val, err = s.SMembersCtx(ctx, a.S(0))
+		}
+	case "SPopCtx":
+		if plain {
+			val, err = s.SPop(a.S(0))
+		} else {
+			val, err = s.SPopCtx(ctx, a.S(0))
+		}
+	case "SRandMemberCtx":
+		if plain {
+			val, err = s.SRandMember(a.S(0), a.N(1))
+		} else {
+			val, err = s.SRandMemberCtx(ctx, a.S(0), a.N(1))
+		}
+	case "SRemCtx":
+		if plain {
+			val, err = s.SRem(a.S(0), a.Anys(1)...)
+		} else {
+			val, err = s.SRemCtx(ctx, a.S(0), a.Anys(1)...)
+		}
+	case "TTLCtx":
+		if plain {
+			val, err = s.TTL(a.S(0))
+		} else {
+			val, err = s.TTLCtx(ctx, a.S(0))
+		}
+	case "ZAddCtx":
+		if plain {
+			val, err = s.ZAdd(a.S(0), a.I(1), a.S(2))
+		} else {
+			val, err = s.ZAddCtx(ctx, a.S(0), a.I(1), a.S(2))
+		}
+	case "ZAddFloatCtx":
+		if plain {
+			val, err = s.ZAddFloat(a.S(0), a.F(1), a.S(2))
+		} else {
+			val, err = s.ZAddFloatCtx(ctx, a.S(0), a.F(1), a.S(2))
+		}
+	case "ZAddsCtx":
+		if plain {
+			val, err = s.ZAdds(a.S(0), verifPairs(a, 1)...)
+		} else {
+			val, err = s.ZAddsCtx(ctx, a.S(0), verifPairs(a, 1)...)
+		}
+	case "ZCardCtx":
+		if plain {
+			val, err = s.ZCard(a.S(0))
+		} else {
+			val, err = s.ZCardCtx(ctx, a.S(0))
+		}
+	case "ZCountCtx":
+		if plain {
+			val, err = s.ZCount(a.S(0), a.I(1), a.I(2))
+		} else {
+			val, err = s.ZCountCtx(ctx, a.S(0), a.I(1), a.I(2))
+		}
+	case "ZIncrByCtx":
+		if plain {
+			val, err = s.ZIncrBy(a.S(0), a.I(1), a.S(2))
+		} else {
+			val, err = s.ZIncrByCtx(ctx, a.S(0), a.I(1), a.S(2))
+		}
+	case "ZScoreCtx":
+		if plain {
+			val, err = s.ZScore(a.S(0), a.S(1))
+		} else {
+			val, err = s.ZScoreCtx(ctx, a.S(0), a.S(1))
+		}
+	case "ZRankCtx":
+		if plain {
+			val, err = s.ZRank(a.S(0), a.S(1))
+		} else {
+			val, err = s.ZRankCtx(ctx, a.S(0), a.S(1))
+		}
+	case "ZRemCtx":
+		if plain {
+			val, err = s.ZRem(a.S(0), a.Anys(1)...)
+		} else {
+			val, err = s.ZRemCtx(ctx, a.S(0), a.Anys(1)...)
+		}
+	case "ZRemRangeByScoreCtx":
+		if plain {
+			val, err = s.ZRemRangeByScore(a.S(0), a.I(1), a.I(2))
+		} else {
+			val, err = s.ZRemRangeByScoreCtx(ctx, a.S(0), a.I(1), a.I(2))
+		}
+	case "ZRemRangeByRankCtx":
+		if plain {
+			val, err = s.ZRemRangeByRank(a.S(0), a.I(1), a.I(2))
+		} else {
+			val, err = s.ZRemRangeByRankCtx(ctx, a.S(0), a.I(1), a.I(2))
+		}
+	case "ZRangeCtx":
+		if plain {
+			val, err = s.ZRange(a.S(0), a.I(1), a.I(2))
+		} else {
+			val, err = s.ZRangeCtx(ctx, a.S(0), a.I(1), a.I(2))
+		}
+	case "ZRangeWithScoresCtx":
+		if plain {
+			val, err = s.ZRangeWithScores(a.S(0), a.I(1), a.I(2))
+		} else {
+			val, err = s.ZRangeWithScoresCtx(ctx, a.S(0), a.I(1), a.I(2))
+		}
+	case "ZRevRangeWithScoresCtx":
+		if plain {
+			val, err = s.ZRevRangeWithScores(a.S(0), a.I(1), a.I(2))
+		} else {
+			val, err = s.ZRevRangeWithScoresCtx(ctx, a.S(0), a.I(1), a.I(2))
+		}
+	case "ZRangeByScoreWithScoresCtx":
+		if plain {
+			val, err = s.ZRangeByScoreWithScores(a.S(0), a.I(1), a.I(2))
+		} else {
+			val, err = s.ZRangeByScoreWithScoresCtx(ctx, a.S(0), a.I(1), a.I(2))
+		}
+	case "ZRangeByScoreWithScoresAndLimitCtx":
+		if plain {
+			val, err = s.ZRangeByScoreWithScoresAndLimit(a.S(0), a.I(1), a.I(2), a.N(3), a.N(4))
+		} else {
+			val, err = s.ZRangeByScoreWithScoresAndLimitCtx(ctx, a.S(0), a.I(1), a.I(2), a.N(3), a.N(4))
+		}
+	case "ZRevRangeCtx":
+		if plain {
+			val, err = s.ZRevRange(a.S(0), a.I(1), a.I(2))
+		} else {
+			val, err = s.ZRevRangeCtx(ctx, a.S(0), a.I(1), a.I(2))
+		}
+	case "ZRevRangeByScoreWithScoresCtx":
+		if plain {
+			val, err = s.ZRevRangeByScoreWithScores(a.S(0), a.I(1), a.I(2))
+		} else {
+			val, err = s.ZRevRangeByScoreWithScoresCtx(ctx, a.S(0), a.I(1), a.I(2))
+		}
+	case "ZRevRangeByScoreWithScoresAndLimitCtx":
+		if plain {
+			val, err = s.ZRevRangeByScoreWithScoresAndLimit(a.S(0), a.I(1), a.I(2), a.N(3), a.N(4))
+		} else {
+			val, err = s.ZRevRangeByScoreWithScoresAndLimitCtx(ctx, a.S(0), a.I(1), a.I(2), a.N(3), a.N(4))
+		}
+	case "ZRevRankCtx":
+		if plain {
+			val, err = s.ZRevRank(a.S(0), a.S(1))
+		} else {
+			val, err = s.ZRevRankCtx(ctx, a.S(0), a.S(1))
+		}
+	default:
+		ok = false
+	}
+	return
+}
+
+func verifJSON(xs ...any) verifdrv.C12Args {
+	out := verifdrv.C12Args{}
+	for _, x := range xs {
+		b, _ := json.Marshal(x)
+		out = append(out, b)
+	}
+	return out
+}
+
+// verifRawCall: the documented go-redis counterpart of a Store method (via the redis wrapper's table):
+// same name and arguments, except HSetNx -> HSetNX, Eval's key -> KEYS=[key], HDel's field -> [field].
+func verifRawCall(m string, a verifdrv.C12Args) (string, verifdrv.C12Args) {
+	switch m {
+	case "HSetNxCtx":
+		return "HSetNXCtx", a
+	case "EvalCtx":
+		return "EvalCtx", verifdrv.C12Args{a[0], verifJSON([]string{a.S(1)})[0], a[2]}
+	case "HDelCtx":
+		return "HDelCtx", verifdrv.C12Args{a[0], verifJSON([]string{a.S(1)})[0]}
+	}
+	return m, a
+}
+
+var verifEpoch = time.Unix(1700000000, 0)
+
+func verifKV(c verifCase) any {
+	var shards []*miniredis.Miniredis
+	var conf Config
+	for _, w := range c.Weights {
+		s, err := miniredis.Run()
+		if err != nil {
+			return map[string]any{"error": err.Error()}
+		}
+		defer s.Close()
+		s.Seed(c.Seed)
+		s.SetTime(verifEpoch)
+		shards = append(shards, s)
+		conf = append(conf, cache.NodeConfig{Config: redis.Config{Host: s.Addr(), Type: redis.NodeType}, Weight: w})
+	}
+	sr, err := miniredis.Run()
+	if err != nil {
+		return map[string]any{"error": err.Error()}
+	}
+	defer sr.Close()
+	sr.Seed(c.Seed)
+	sr.SetTime(verifEpoch)
+	store := New(conf)
+	raw := red.NewClient(&red.Options{Addr: sr.Addr()})
+	defer raw.Close()
+
+	steps := []any{}
+	for _, op := range c.Ops {
+		if op.M == "#ff" {
+			d := time.Duration(op.A.I(0)) * time.Second
+			for _, s := range shards {
+				s.FastForward(d)
+			}
+			sr.FastForward(d)
+			steps = append(steps, map[string]any{"skip": "ff"})
+			continue
+		}
+		ctx := context.Background()
+		if op.Form == "canceled" {
+			cctx, cancel := context.WithCancel(ctx)
+			cancel()
+			ctx = cctx
+		}
+		wv, we, ok := verifWrap(store, ctx, op.Form == "plain", op.M, op.A)
+		if !ok {
+			steps = append(steps, map[string]any{"skip": "unknown method " + op.M})
+			continue
+		}
+		rm, ra := verifRawCall(op.M, op.A)
+		rv, re, _, _ := verifdrv.C12Raw(raw, ctx, rm, ra)
+		steps = append(steps, map[string]any{
+			"w":   map[string]any{"v": verifdrv.C12Val(verifdrv.C12Canon(op.M, wv)), "e": verifdrv.C12Err(we)},
+			"r":   map[string]any{"v": verifdrv.C12Val(verifdrv.C12Canon(op.M, rv)), "e": verifdrv.C12Err(re)},
+			"brk": "n/a", "xw": "", "xr": "",
+		})
+	}
+	// where the keys live: shard index per key (for the evidence; the comparison uses the union)
+	placement := map[string]int{}
+	for i, s := range shards {
+		for _, k := range s.Keys() {
+			placement[k] = i
+		}
+	}
+	return map[string]any{"steps": steps, "dump_w": verifdrv.C12Dump(shards...), "dump_r": verifdrv.C12Dump(sr), "placement": placement}
+}
+
+func TestVerifDriver(t *testing.T) {
+	logx.Disable()
+	verifdrv.Run(t, func(raw json.RawMessage) any {
+		var c verifCase
+		if err := json.Unmarshal(raw, &c); err != nil {
+			return map[string]any{"error": err.Error()}
+		}
+		if c.Kind != "kv" {
+			return map[string]any{"error": "unknown kind " + c.Kind}
+		}
+		return verifKV(c)
+	})
+}
